@@ -145,6 +145,15 @@ def c07_cases(seed, tier):
                           "layout": [1] if typ == "I" else [0, 1], "table": [["5"] if typ == "I" else ["5", "5"]], "echo": 0,
                           "wdefault": 0, "faults": [], "max": 1000, "seed": seed & 0xFFFFFFFF,
                           "c07": {"w": w, "vals": vals, "typ": typ}})
+    # the value the user sees as `expected` must not depend on what the driver answers: drivers that return
+    # negative (sign-extended), out-of-range, Z and X outputs
+    for w in range(1, 65):
+        sigs = [{"name": "A", "typ": "I", "bits": w, "default": "0"}, {"name": "Q", "typ": "O", "bits": w, "default": "-"}]
+        lines = ["A Q"] + ["%s %s" % (lit64(v), lit64(v)) for v in vals[:24]] + ["Z X"]
+        table = [["-1"], [str(-(1 << (w - 1)))], ["X"], ["Z"], [str(2 ** 63 - 1)], ["-2"], [str(-(2 ** 63))], ["0"]]
+        cases.append({"id": "c07-w%d-drv" % w, "kind": "run", "src": "\n".join(lines) + "\n", "sigs": sigs, "layout": [1], "table": table,
+                      "echo": 0, "wdefault": 0, "faults": [], "max": 1000, "seed": seed & 0xFFFFFFFF,
+                      "c07": {"w": w, "vals": vals[:24], "typ": "I", "drv": True}})
     # one header column bound to TWO signals of different widths: an input literally named B_out (width w2) and
     # the expected side of a bidirectional B (width w): each value is reduced to the width of the signal it is bound to
     for w in (1, 3, 8, 16, 31, 33, 63, 64):
@@ -185,7 +194,7 @@ def c07_oracle(case, trace):
         for nm_, _, exp, _, _ in outs:
             if nm_ in ("Q", "A") and exp != str(want):
                 yield "width %d: expected value of %s for program value %d is %s, expected %d" % (w, nm_, v, exp, want)
-            if nm_ == "V" and exp != str(v):
+            if nm_ == "V" and exp != str(v) and not info.get("drv"):
                 yield "virtual signal (64 bits): expected value for program value %d is %s" % (v, exp)
     if info.get("norow_z"):
         return
@@ -405,6 +414,9 @@ PROPS["C18"].update({
     "cases": run_family("c18", 400, 20000, [
         {"maxdepth": 4, "budget": 16, "wrow": 0.4, "wlet": 0.3, "pC": 0.1, "pX": 0.1, "reads": 0.3, "shadow_out": 0.3, "declare": 0.3},
         {"maxdepth": 5, "budget": 18, "wrow": 0.35, "wlet": 0.3, "pC": 0.0, "pX": 0.0, "reads": 0.0},
+        # rows that fail after the driver call (a virtual signal reading Z/X, a deviating answer) with a caller that keeps iterating:
+        # vars() of the rows after the error item
+        {"declare": 1.0, "reads": 0.6, "pZX": 0.3, "pZXread": 0.0, "maxdepth": 3, "wlet": 0.35, "cont": 1.0, "echo": 1.0},
     ]),
     "tags": ("PARSE", "BIND", "NEW", "ROW", "VARS", "ITEM", "END"),
     "rule": "seeded valid programs with lets at every depth, shadowing (also of output names), C/X expansions and virtual signals; vars() is read after EVERY "
@@ -704,9 +716,11 @@ PROPS["C17"] = {
             "(hook: seed override); the implementation's generator events (bound, draw, reset) are logged through the verif-hooks feature, checked for range / one draw per evaluation / replay after reset, "
             "and replayed into the model as its oracle G; non-trivial = at least one draw",
     "proved": "random(e): bound < 2 -> error and no draw, else exactly one draw from [1,n) recorded in the history; with rand's range contract 0 <= r < n; evaluation only appends to the history; "
-              "no draw without a random node; unselected ite branch draws nothing; resetRandom restores the initial generator state",
-    "validated_only": "StdRng/gen_range (rand's contract is a hypothesis); that a program behaves 'as if the drawn values were literals' is exercised by replaying the implementation's draws into the model "
-                      "and comparing all rows, not proved as a program transformation",
+              "no draw without a random node; unselected ite branch draws nothing; resetRandom restores the initial generator state; 'as if literals' as a program transformation: literalize replaces exactly the "
+              "evaluated, drawing random(..) calls by the drawn values (a literal-substitution instance), the literal expression / data row gives the same result (value or error) with ANY generator and draws "
+              "nothing, one literal per draw; the drawn values are a function of generator, start history and bound sequence only, so the same bounds after a reset replay the same values",
+    "validated_only": "StdRng/gen_range (rand's contract is a hypothesis); that the crate's evaluator is Eval.v (the implementation's draws are replayed into the model and all rows compared); the "
+                      "literal-substitution theorem is per expression / data row evaluation (a loop body evaluated several times corresponds to several literal copies)",
     "assumptions": ["rand: lo <= gen_range(lo..hi) < hi (hypothesis gen_in_range of the theorem, checked on every logged draw)", "StdRng::seed_from_u64 is deterministic (checked: replay after reset)"],
     "trusted_base": ["rand 0.8 StdRng / gen_range (not modelled; oracle G)"],
     "level": "proof",
@@ -891,6 +905,7 @@ PROPS["C13"] = {
     "cases": add_faults(run_family("c13", 600, 20000, [
         {"pC": 0.15, "pX": 0.1, "maxdepth": 2, "reads": 0.3, "declare": 0.2, "full_layout": False},
         {"pC": 0.1, "maxdepth": 3, "reads": 0.2, "echo": 1.0},
+        {"pC": 0.1, "maxdepth": 2, "reads": 0.2, "n_bidir": 1, "out_twin": 0.8, "full_layout": True},
     ]), ["err", "drop", "add", "dup", "swap", "subst"], 0.8, cont=0.4),
     "tags": ("NEW", "CALL", "ROW", "ITEM", "END"),
     "nontrivial": lambda c, t: any(x == "ITEM" for x, _ in t) or any(x == "NEW" and r.startswith("err") for x, r in t),
@@ -1000,6 +1015,14 @@ def text_cases(prefix, seed, n_valid, n_mut, n_soup, exhaustive=0):
         head = rng.choice(["A Q\n", "A Q\n", "A\n", "", " A  Q \r\n", "\n\nA Q\n", "A A\n", "A Q"])
         body = "".join(rng.choice(ALPHABET) + rng.choice(["", " ", " "]) for _ in range(k))
         cases.append({"id": "%s-s%d" % (prefix, i), "kind": "parse", "src": head + body, "text_kind": "soup"})
+    # characters that other notions of "white space" / "line break" know but the two lexers do not (the header lexer
+    # splits at space, TAB, CR, FF and LF only; everything else is part of a name): before, inside and after the header
+    # names, and in the body
+    odd = ["\u00a0", "\u000b", "\u0085", "\u3000", "\u2028", "\u2029", "\ufeff", "\u0000", "\u001c", "\u001f", "\u1680", "\u200b", "\u2003", "\u00ad", "\u0661"]
+    for i, ch in enumerate(odd):
+        for j, text in enumerate(["A%sB\n0 0\n" % ch, "%sA B\n0 0\n" % ch, "A B%s\n0 0\n" % ch, "A %s B\n0 0 0\n" % ch, "%s\nA B\n0 0\n" % ch,
+                                  "A B\n0%s0\n" % ch, "A B\n0 0%s\n" % ch, "A B\n%s\n0 0\n" % ch, "A B\n0 0 #%s\n1 1\n" % ch]):
+            cases.append({"id": "%s-odd%d-%d" % (prefix, i, j), "kind": "parse", "src": text, "text_kind": "odd-blank"})
     if exhaustive:
         small = ["loop", "end", "(", ")", "1", "C", "a", ",", ";", "=", "let", "\n", " ", "<", "!", "while", "bits", "0x", "$", "é", "repeat", "declare", "program", "-"]
         import itertools
@@ -1041,6 +1064,10 @@ PROPS["C09"] = {
 
 
 # ------------------------------------------------------------------ C12: grammar-breaking edits
+
+def ncols_of(header_line):
+    return len(header_line.split())
+
 
 def breaking_edits(rng, src):
     """edits of a VALID program text that are grammar-breaking by construction -> list of (text, what)"""
@@ -1091,6 +1118,17 @@ def breaking_edits(rng, src):
         if len(first) > 1 and not any(c in body[i] for c in "(),"):
             out.append((join(body[:i] + [" ".join(first[:-1])] + body[i + 1:]), "row with one entry too few"))
         out.append((join(body[:i] + [body[i].split("#")[0] + " 9223372036854775808"[0:0]] + ["let big = 9223372036854775808;"] + body[i + 1:]), "literal that does not fit in 64 bits"))
+        # literals that do not fit, in every radix and every position a number can appear in
+        big_lits = ["0b1" + "0" * rng.choice([63, 64, 65, 70, 127, 128]), "0b" + "1" * rng.choice([64, 65, 66, 100]),
+                    "0x8" + "0" * 15, "0x1" + "0" * rng.choice([16, 17, 31, 32]), "0xFFFFFFFFFFFFFFFF", "0" + "1" + "0" * 21, "01777777777777777777777",
+                    "9223372036854775808", "18446744073709551616", "1" + "0" * 40]
+        lit = rng.choice(big_lits)
+        place = rng.choice(["let big2 = %s;", "let big2 = 1 + %s;", "loop(zz,%s)\nend loop", "let big2 = ite(1,2,%s);", "bits(2,%s)" if ncols_of(lines[hdr_i]) == 2 else "let big2 = (%s);",
+                            "let big2 = -%s;", "while(%s)\nend while"])
+        out.append((join(body[:i] + (place % lit).split("\n") + body[i + 1:]), "literal %s that does not fit in 63 bits" % lit[:12]))
+        # function names are case sensitive: only random, ite, signExt exist
+        fn = rng.choice(["Random(4)", "RANDOM(4)", "ITE(1,2,3)", "Ite(1,2,3)", "signext(4,9)", "SignExt(4,9)", "iTe(1,2,3)", "randoM(2)", "SIGNEXT(1,1)"])
+        out.append((join(body[:i] + ["let cs = %s;" % fn] + body[i + 1:]), "unknown function (wrong letter case) " + fn.split("(")[0]))
         out.append((join(body[:i] + ["let w = 1; bits(65,1)"] + body[i + 1:]), "statement not followed by a line break / bits width 65"))
         ncols = len(lines[hdr_i].split())
         big = rng.choice([65, 66, 100, 255, 256, 257, 259, 320, 512, 513, 65536, 65537, 4294967297])
